@@ -334,6 +334,36 @@ def restoreInsert (g : G) (a b : Nat) : G × Bool :=
 def moveChan (g : G) (o n : Nat) : G × Bool :=
   if seatable g [(o, n)] [o] [n] then (seat g [(o, n)] [o] [n], true) else (g, false)
 
+/-! ## `Node.run_data_tree` (every `pull`) since 89b457b: save, rewire, run, restore by assignment
+
+The lists of every signal channel of the data-tree nodes and of every channel connected to one are saved
+(`keys`); the linear wiring (cuts and `>>` among those very channels) and the upstream run follow; the
+`finally` block assigns the saved lists back. -/
+
+inductive Prim | connect (a b : Nat) | disconnect (a b : Nat)
+  deriving Repr
+
+def runPrims (g : G) (ps : List Prim) : G :=
+  ps.foldl (fun g p => match p with
+    | .connect a b => (connect1 g a b).1
+    | .disconnect a b => disconnect1 g a b) g
+
+def primsWithin (keys : List Nat) (ps : List Prim) : Bool :=
+  ps.all fun p => match p with
+    | .connect a b => keys.contains a && keys.contains b
+    | .disconnect a b => keys.contains a && keys.contains b
+
+def savedKeys (g : G) (keys : List Nat) : List (Nat × List Nat) := keys.map fun c => (c, g.conns c)
+
+/-- the pull as far as connection lists go; `false` when an edit in between touched a channel that was not saved -/
+def pullAttempt (g : G) (keys : List Nat) (ps : List Prim) : G × Bool :=
+  if primsWithin keys ps then (restoreSaved (runPrims g ps) (savedKeys g keys), true) else (g, false)
+
+/-- what the driver checks when it replays a recorded pull: outside the saved channels nothing differs from the
+graph at save time -/
+def framed (g0 g : G) (keys dom : List Nat) : Bool :=
+  dom.all fun x => keys.contains x || decide (g.conns x = g0.conns x)
+
 /-! ## the alphabet of the current tree -/
 
 inductive Op
@@ -354,6 +384,8 @@ inductive Op
   | restoreInsert (a b : Nat)
   /-- `Node.load` in place, one channel -/
   | moveChan (o n : Nat)
+  /-- `Node.run_data_tree`: save `keys`, the edits in between, restore by assignment -/
+  | pullAttempt (keys : List Nat) (ps : List Prim)
   deriving Repr
 
 def step (g : G) : Op → G × Res
@@ -368,6 +400,7 @@ def step (g : G) : Op → G × Res
   | .reorder c l => ((reorder g c l).1, .ok)
   | .restoreInsert a b => ((restoreInsert g a b).1, .ok)
   | .moveChan o n => ((moveChan g o n).1, .ok)
+  | .pullAttempt keys ps => ((pullAttempt g keys ps).1, .ok)
 
 def run (g : G) (ops : List Op) : G := ops.foldl (fun g o => (step g o).1) g
 
